@@ -493,6 +493,14 @@ func (pk *Packet) ConnectValidate() Code {
 		return ErrProtocolViolationWillFlagSurplusRetain // [MQTT-3.1.2-13]
 	}
 
+	if !pk.Connect.WillFlag && pk.Connect.WillQos > 0 {
+		return ErrProtocolViolationQosOutOfRange // [MQTT-3.1.2-11]
+	}
+
+	if pk.ProtocolVersion < 5 && pk.Connect.PasswordFlag && !pk.Connect.UsernameFlag {
+		return ErrProtocolViolationFlagNoUsername // [MQTT-3.1.2-22] (mqtt v3.1.1 only)
+	}
+
 	return CodeSuccess
 }
 
